@@ -125,56 +125,59 @@ Record state := mkState {
   g_ext : nat;
   g_leak : nat;
   g_floor : nat;
-  g_abort : bool }.
+  g_abort : bool;
+  fixF : bool }.
 
 Definition set_time (st : state) (v : nat) : state :=
-  {| time := v; ready := ready st; heap := heap st; nexth := nexth st; futs := futs st; scopes := scopes st; sstack := sstack st; t_waiter := t_waiter st; t_must := t_must st; t_msg := t_msg st; t_cnt := t_cnt st; delayed := delayed st; md := md st; frames := frames st; todo := todo st; iter := iter st; spin := spin st; spinK := spinK st; ctrl := ctrl st; trace := trace st; g_ext := g_ext st; g_leak := g_leak st; g_floor := g_floor st; g_abort := g_abort st |}.
+  {| time := v; ready := ready st; heap := heap st; nexth := nexth st; futs := futs st; scopes := scopes st; sstack := sstack st; t_waiter := t_waiter st; t_must := t_must st; t_msg := t_msg st; t_cnt := t_cnt st; delayed := delayed st; md := md st; frames := frames st; todo := todo st; iter := iter st; spin := spin st; spinK := spinK st; ctrl := ctrl st; trace := trace st; g_ext := g_ext st; g_leak := g_leak st; g_floor := g_floor st; g_abort := g_abort st; fixF := fixF st |}.
 Definition set_ready (st : state) (v : list handle) : state :=
-  {| time := time st; ready := v; heap := heap st; nexth := nexth st; futs := futs st; scopes := scopes st; sstack := sstack st; t_waiter := t_waiter st; t_must := t_must st; t_msg := t_msg st; t_cnt := t_cnt st; delayed := delayed st; md := md st; frames := frames st; todo := todo st; iter := iter st; spin := spin st; spinK := spinK st; ctrl := ctrl st; trace := trace st; g_ext := g_ext st; g_leak := g_leak st; g_floor := g_floor st; g_abort := g_abort st |}.
+  {| time := time st; ready := v; heap := heap st; nexth := nexth st; futs := futs st; scopes := scopes st; sstack := sstack st; t_waiter := t_waiter st; t_must := t_must st; t_msg := t_msg st; t_cnt := t_cnt st; delayed := delayed st; md := md st; frames := frames st; todo := todo st; iter := iter st; spin := spin st; spinK := spinK st; ctrl := ctrl st; trace := trace st; g_ext := g_ext st; g_leak := g_leak st; g_floor := g_floor st; g_abort := g_abort st; fixF := fixF st |}.
 Definition set_heap (st : state) (v : list timer) : state :=
-  {| time := time st; ready := ready st; heap := v; nexth := nexth st; futs := futs st; scopes := scopes st; sstack := sstack st; t_waiter := t_waiter st; t_must := t_must st; t_msg := t_msg st; t_cnt := t_cnt st; delayed := delayed st; md := md st; frames := frames st; todo := todo st; iter := iter st; spin := spin st; spinK := spinK st; ctrl := ctrl st; trace := trace st; g_ext := g_ext st; g_leak := g_leak st; g_floor := g_floor st; g_abort := g_abort st |}.
+  {| time := time st; ready := ready st; heap := v; nexth := nexth st; futs := futs st; scopes := scopes st; sstack := sstack st; t_waiter := t_waiter st; t_must := t_must st; t_msg := t_msg st; t_cnt := t_cnt st; delayed := delayed st; md := md st; frames := frames st; todo := todo st; iter := iter st; spin := spin st; spinK := spinK st; ctrl := ctrl st; trace := trace st; g_ext := g_ext st; g_leak := g_leak st; g_floor := g_floor st; g_abort := g_abort st; fixF := fixF st |}.
 Definition set_nexth (st : state) (v : nat) : state :=
-  {| time := time st; ready := ready st; heap := heap st; nexth := v; futs := futs st; scopes := scopes st; sstack := sstack st; t_waiter := t_waiter st; t_must := t_must st; t_msg := t_msg st; t_cnt := t_cnt st; delayed := delayed st; md := md st; frames := frames st; todo := todo st; iter := iter st; spin := spin st; spinK := spinK st; ctrl := ctrl st; trace := trace st; g_ext := g_ext st; g_leak := g_leak st; g_floor := g_floor st; g_abort := g_abort st |}.
+  {| time := time st; ready := ready st; heap := heap st; nexth := v; futs := futs st; scopes := scopes st; sstack := sstack st; t_waiter := t_waiter st; t_must := t_must st; t_msg := t_msg st; t_cnt := t_cnt st; delayed := delayed st; md := md st; frames := frames st; todo := todo st; iter := iter st; spin := spin st; spinK := spinK st; ctrl := ctrl st; trace := trace st; g_ext := g_ext st; g_leak := g_leak st; g_floor := g_floor st; g_abort := g_abort st; fixF := fixF st |}.
 Definition set_futs (st : state) (v : list fut) : state :=
-  {| time := time st; ready := ready st; heap := heap st; nexth := nexth st; futs := v; scopes := scopes st; sstack := sstack st; t_waiter := t_waiter st; t_must := t_must st; t_msg := t_msg st; t_cnt := t_cnt st; delayed := delayed st; md := md st; frames := frames st; todo := todo st; iter := iter st; spin := spin st; spinK := spinK st; ctrl := ctrl st; trace := trace st; g_ext := g_ext st; g_leak := g_leak st; g_floor := g_floor st; g_abort := g_abort st |}.
+  {| time := time st; ready := ready st; heap := heap st; nexth := nexth st; futs := v; scopes := scopes st; sstack := sstack st; t_waiter := t_waiter st; t_must := t_must st; t_msg := t_msg st; t_cnt := t_cnt st; delayed := delayed st; md := md st; frames := frames st; todo := todo st; iter := iter st; spin := spin st; spinK := spinK st; ctrl := ctrl st; trace := trace st; g_ext := g_ext st; g_leak := g_leak st; g_floor := g_floor st; g_abort := g_abort st; fixF := fixF st |}.
 Definition set_scopes (st : state) (v : list scope) : state :=
-  {| time := time st; ready := ready st; heap := heap st; nexth := nexth st; futs := futs st; scopes := v; sstack := sstack st; t_waiter := t_waiter st; t_must := t_must st; t_msg := t_msg st; t_cnt := t_cnt st; delayed := delayed st; md := md st; frames := frames st; todo := todo st; iter := iter st; spin := spin st; spinK := spinK st; ctrl := ctrl st; trace := trace st; g_ext := g_ext st; g_leak := g_leak st; g_floor := g_floor st; g_abort := g_abort st |}.
+  {| time := time st; ready := ready st; heap := heap st; nexth := nexth st; futs := futs st; scopes := v; sstack := sstack st; t_waiter := t_waiter st; t_must := t_must st; t_msg := t_msg st; t_cnt := t_cnt st; delayed := delayed st; md := md st; frames := frames st; todo := todo st; iter := iter st; spin := spin st; spinK := spinK st; ctrl := ctrl st; trace := trace st; g_ext := g_ext st; g_leak := g_leak st; g_floor := g_floor st; g_abort := g_abort st; fixF := fixF st |}.
 Definition set_sstack (st : state) (v : list nat) : state :=
-  {| time := time st; ready := ready st; heap := heap st; nexth := nexth st; futs := futs st; scopes := scopes st; sstack := v; t_waiter := t_waiter st; t_must := t_must st; t_msg := t_msg st; t_cnt := t_cnt st; delayed := delayed st; md := md st; frames := frames st; todo := todo st; iter := iter st; spin := spin st; spinK := spinK st; ctrl := ctrl st; trace := trace st; g_ext := g_ext st; g_leak := g_leak st; g_floor := g_floor st; g_abort := g_abort st |}.
+  {| time := time st; ready := ready st; heap := heap st; nexth := nexth st; futs := futs st; scopes := scopes st; sstack := v; t_waiter := t_waiter st; t_must := t_must st; t_msg := t_msg st; t_cnt := t_cnt st; delayed := delayed st; md := md st; frames := frames st; todo := todo st; iter := iter st; spin := spin st; spinK := spinK st; ctrl := ctrl st; trace := trace st; g_ext := g_ext st; g_leak := g_leak st; g_floor := g_floor st; g_abort := g_abort st; fixF := fixF st |}.
 Definition set_t_waiter (st : state) (v : option nat) : state :=
-  {| time := time st; ready := ready st; heap := heap st; nexth := nexth st; futs := futs st; scopes := scopes st; sstack := sstack st; t_waiter := v; t_must := t_must st; t_msg := t_msg st; t_cnt := t_cnt st; delayed := delayed st; md := md st; frames := frames st; todo := todo st; iter := iter st; spin := spin st; spinK := spinK st; ctrl := ctrl st; trace := trace st; g_ext := g_ext st; g_leak := g_leak st; g_floor := g_floor st; g_abort := g_abort st |}.
+  {| time := time st; ready := ready st; heap := heap st; nexth := nexth st; futs := futs st; scopes := scopes st; sstack := sstack st; t_waiter := v; t_must := t_must st; t_msg := t_msg st; t_cnt := t_cnt st; delayed := delayed st; md := md st; frames := frames st; todo := todo st; iter := iter st; spin := spin st; spinK := spinK st; ctrl := ctrl st; trace := trace st; g_ext := g_ext st; g_leak := g_leak st; g_floor := g_floor st; g_abort := g_abort st; fixF := fixF st |}.
 Definition set_t_must (st : state) (v : bool) : state :=
-  {| time := time st; ready := ready st; heap := heap st; nexth := nexth st; futs := futs st; scopes := scopes st; sstack := sstack st; t_waiter := t_waiter st; t_must := v; t_msg := t_msg st; t_cnt := t_cnt st; delayed := delayed st; md := md st; frames := frames st; todo := todo st; iter := iter st; spin := spin st; spinK := spinK st; ctrl := ctrl st; trace := trace st; g_ext := g_ext st; g_leak := g_leak st; g_floor := g_floor st; g_abort := g_abort st |}.
+  {| time := time st; ready := ready st; heap := heap st; nexth := nexth st; futs := futs st; scopes := scopes st; sstack := sstack st; t_waiter := t_waiter st; t_must := v; t_msg := t_msg st; t_cnt := t_cnt st; delayed := delayed st; md := md st; frames := frames st; todo := todo st; iter := iter st; spin := spin st; spinK := spinK st; ctrl := ctrl st; trace := trace st; g_ext := g_ext st; g_leak := g_leak st; g_floor := g_floor st; g_abort := g_abort st; fixF := fixF st |}.
 Definition set_t_msg (st : state) (v : msg) : state :=
-  {| time := time st; ready := ready st; heap := heap st; nexth := nexth st; futs := futs st; scopes := scopes st; sstack := sstack st; t_waiter := t_waiter st; t_must := t_must st; t_msg := v; t_cnt := t_cnt st; delayed := delayed st; md := md st; frames := frames st; todo := todo st; iter := iter st; spin := spin st; spinK := spinK st; ctrl := ctrl st; trace := trace st; g_ext := g_ext st; g_leak := g_leak st; g_floor := g_floor st; g_abort := g_abort st |}.
+  {| time := time st; ready := ready st; heap := heap st; nexth := nexth st; futs := futs st; scopes := scopes st; sstack := sstack st; t_waiter := t_waiter st; t_must := t_must st; t_msg := v; t_cnt := t_cnt st; delayed := delayed st; md := md st; frames := frames st; todo := todo st; iter := iter st; spin := spin st; spinK := spinK st; ctrl := ctrl st; trace := trace st; g_ext := g_ext st; g_leak := g_leak st; g_floor := g_floor st; g_abort := g_abort st; fixF := fixF st |}.
 Definition set_t_cnt (st : state) (v : nat) : state :=
-  {| time := time st; ready := ready st; heap := heap st; nexth := nexth st; futs := futs st; scopes := scopes st; sstack := sstack st; t_waiter := t_waiter st; t_must := t_must st; t_msg := t_msg st; t_cnt := v; delayed := delayed st; md := md st; frames := frames st; todo := todo st; iter := iter st; spin := spin st; spinK := spinK st; ctrl := ctrl st; trace := trace st; g_ext := g_ext st; g_leak := g_leak st; g_floor := g_floor st; g_abort := g_abort st |}.
+  {| time := time st; ready := ready st; heap := heap st; nexth := nexth st; futs := futs st; scopes := scopes st; sstack := sstack st; t_waiter := t_waiter st; t_must := t_must st; t_msg := t_msg st; t_cnt := v; delayed := delayed st; md := md st; frames := frames st; todo := todo st; iter := iter st; spin := spin st; spinK := spinK st; ctrl := ctrl st; trace := trace st; g_ext := g_ext st; g_leak := g_leak st; g_floor := g_floor st; g_abort := g_abort st; fixF := fixF st |}.
 Definition set_delayed (st : state) (v : option (nat * msg)) : state :=
-  {| time := time st; ready := ready st; heap := heap st; nexth := nexth st; futs := futs st; scopes := scopes st; sstack := sstack st; t_waiter := t_waiter st; t_must := t_must st; t_msg := t_msg st; t_cnt := t_cnt st; delayed := v; md := md st; frames := frames st; todo := todo st; iter := iter st; spin := spin st; spinK := spinK st; ctrl := ctrl st; trace := trace st; g_ext := g_ext st; g_leak := g_leak st; g_floor := g_floor st; g_abort := g_abort st |}.
+  {| time := time st; ready := ready st; heap := heap st; nexth := nexth st; futs := futs st; scopes := scopes st; sstack := sstack st; t_waiter := t_waiter st; t_must := t_must st; t_msg := t_msg st; t_cnt := t_cnt st; delayed := v; md := md st; frames := frames st; todo := todo st; iter := iter st; spin := spin st; spinK := spinK st; ctrl := ctrl st; trace := trace st; g_ext := g_ext st; g_leak := g_leak st; g_floor := g_floor st; g_abort := g_abort st; fixF := fixF st |}.
 Definition set_md (st : state) (v : mode) : state :=
-  {| time := time st; ready := ready st; heap := heap st; nexth := nexth st; futs := futs st; scopes := scopes st; sstack := sstack st; t_waiter := t_waiter st; t_must := t_must st; t_msg := t_msg st; t_cnt := t_cnt st; delayed := delayed st; md := v; frames := frames st; todo := todo st; iter := iter st; spin := spin st; spinK := spinK st; ctrl := ctrl st; trace := trace st; g_ext := g_ext st; g_leak := g_leak st; g_floor := g_floor st; g_abort := g_abort st |}.
+  {| time := time st; ready := ready st; heap := heap st; nexth := nexth st; futs := futs st; scopes := scopes st; sstack := sstack st; t_waiter := t_waiter st; t_must := t_must st; t_msg := t_msg st; t_cnt := t_cnt st; delayed := delayed st; md := v; frames := frames st; todo := todo st; iter := iter st; spin := spin st; spinK := spinK st; ctrl := ctrl st; trace := trace st; g_ext := g_ext st; g_leak := g_leak st; g_floor := g_floor st; g_abort := g_abort st; fixF := fixF st |}.
 Definition set_frames (st : state) (v : list frame) : state :=
-  {| time := time st; ready := ready st; heap := heap st; nexth := nexth st; futs := futs st; scopes := scopes st; sstack := sstack st; t_waiter := t_waiter st; t_must := t_must st; t_msg := t_msg st; t_cnt := t_cnt st; delayed := delayed st; md := md st; frames := v; todo := todo st; iter := iter st; spin := spin st; spinK := spinK st; ctrl := ctrl st; trace := trace st; g_ext := g_ext st; g_leak := g_leak st; g_floor := g_floor st; g_abort := g_abort st |}.
+  {| time := time st; ready := ready st; heap := heap st; nexth := nexth st; futs := futs st; scopes := scopes st; sstack := sstack st; t_waiter := t_waiter st; t_must := t_must st; t_msg := t_msg st; t_cnt := t_cnt st; delayed := delayed st; md := md st; frames := v; todo := todo st; iter := iter st; spin := spin st; spinK := spinK st; ctrl := ctrl st; trace := trace st; g_ext := g_ext st; g_leak := g_leak st; g_floor := g_floor st; g_abort := g_abort st; fixF := fixF st |}.
 Definition set_todo (st : state) (v : nat) : state :=
-  {| time := time st; ready := ready st; heap := heap st; nexth := nexth st; futs := futs st; scopes := scopes st; sstack := sstack st; t_waiter := t_waiter st; t_must := t_must st; t_msg := t_msg st; t_cnt := t_cnt st; delayed := delayed st; md := md st; frames := frames st; todo := v; iter := iter st; spin := spin st; spinK := spinK st; ctrl := ctrl st; trace := trace st; g_ext := g_ext st; g_leak := g_leak st; g_floor := g_floor st; g_abort := g_abort st |}.
+  {| time := time st; ready := ready st; heap := heap st; nexth := nexth st; futs := futs st; scopes := scopes st; sstack := sstack st; t_waiter := t_waiter st; t_must := t_must st; t_msg := t_msg st; t_cnt := t_cnt st; delayed := delayed st; md := md st; frames := frames st; todo := v; iter := iter st; spin := spin st; spinK := spinK st; ctrl := ctrl st; trace := trace st; g_ext := g_ext st; g_leak := g_leak st; g_floor := g_floor st; g_abort := g_abort st; fixF := fixF st |}.
 Definition set_iter (st : state) (v : nat) : state :=
-  {| time := time st; ready := ready st; heap := heap st; nexth := nexth st; futs := futs st; scopes := scopes st; sstack := sstack st; t_waiter := t_waiter st; t_must := t_must st; t_msg := t_msg st; t_cnt := t_cnt st; delayed := delayed st; md := md st; frames := frames st; todo := todo st; iter := v; spin := spin st; spinK := spinK st; ctrl := ctrl st; trace := trace st; g_ext := g_ext st; g_leak := g_leak st; g_floor := g_floor st; g_abort := g_abort st |}.
+  {| time := time st; ready := ready st; heap := heap st; nexth := nexth st; futs := futs st; scopes := scopes st; sstack := sstack st; t_waiter := t_waiter st; t_must := t_must st; t_msg := t_msg st; t_cnt := t_cnt st; delayed := delayed st; md := md st; frames := frames st; todo := todo st; iter := v; spin := spin st; spinK := spinK st; ctrl := ctrl st; trace := trace st; g_ext := g_ext st; g_leak := g_leak st; g_floor := g_floor st; g_abort := g_abort st; fixF := fixF st |}.
 Definition set_spin (st : state) (v : nat) : state :=
-  {| time := time st; ready := ready st; heap := heap st; nexth := nexth st; futs := futs st; scopes := scopes st; sstack := sstack st; t_waiter := t_waiter st; t_must := t_must st; t_msg := t_msg st; t_cnt := t_cnt st; delayed := delayed st; md := md st; frames := frames st; todo := todo st; iter := iter st; spin := v; spinK := spinK st; ctrl := ctrl st; trace := trace st; g_ext := g_ext st; g_leak := g_leak st; g_floor := g_floor st; g_abort := g_abort st |}.
+  {| time := time st; ready := ready st; heap := heap st; nexth := nexth st; futs := futs st; scopes := scopes st; sstack := sstack st; t_waiter := t_waiter st; t_must := t_must st; t_msg := t_msg st; t_cnt := t_cnt st; delayed := delayed st; md := md st; frames := frames st; todo := todo st; iter := iter st; spin := v; spinK := spinK st; ctrl := ctrl st; trace := trace st; g_ext := g_ext st; g_leak := g_leak st; g_floor := g_floor st; g_abort := g_abort st; fixF := fixF st |}.
 Definition set_spinK (st : state) (v : nat) : state :=
-  {| time := time st; ready := ready st; heap := heap st; nexth := nexth st; futs := futs st; scopes := scopes st; sstack := sstack st; t_waiter := t_waiter st; t_must := t_must st; t_msg := t_msg st; t_cnt := t_cnt st; delayed := delayed st; md := md st; frames := frames st; todo := todo st; iter := iter st; spin := spin st; spinK := v; ctrl := ctrl st; trace := trace st; g_ext := g_ext st; g_leak := g_leak st; g_floor := g_floor st; g_abort := g_abort st |}.
+  {| time := time st; ready := ready st; heap := heap st; nexth := nexth st; futs := futs st; scopes := scopes st; sstack := sstack st; t_waiter := t_waiter st; t_must := t_must st; t_msg := t_msg st; t_cnt := t_cnt st; delayed := delayed st; md := md st; frames := frames st; todo := todo st; iter := iter st; spin := spin st; spinK := v; ctrl := ctrl st; trace := trace st; g_ext := g_ext st; g_leak := g_leak st; g_floor := g_floor st; g_abort := g_abort st; fixF := fixF st |}.
 Definition set_ctrl (st : state) (v : list (nat * bool)) : state :=
-  {| time := time st; ready := ready st; heap := heap st; nexth := nexth st; futs := futs st; scopes := scopes st; sstack := sstack st; t_waiter := t_waiter st; t_must := t_must st; t_msg := t_msg st; t_cnt := t_cnt st; delayed := delayed st; md := md st; frames := frames st; todo := todo st; iter := iter st; spin := spin st; spinK := spinK st; ctrl := v; trace := trace st; g_ext := g_ext st; g_leak := g_leak st; g_floor := g_floor st; g_abort := g_abort st |}.
+  {| time := time st; ready := ready st; heap := heap st; nexth := nexth st; futs := futs st; scopes := scopes st; sstack := sstack st; t_waiter := t_waiter st; t_must := t_must st; t_msg := t_msg st; t_cnt := t_cnt st; delayed := delayed st; md := md st; frames := frames st; todo := todo st; iter := iter st; spin := spin st; spinK := spinK st; ctrl := v; trace := trace st; g_ext := g_ext st; g_leak := g_leak st; g_floor := g_floor st; g_abort := g_abort st; fixF := fixF st |}.
 Definition set_trace (st : state) (v : list event) : state :=
-  {| time := time st; ready := ready st; heap := heap st; nexth := nexth st; futs := futs st; scopes := scopes st; sstack := sstack st; t_waiter := t_waiter st; t_must := t_must st; t_msg := t_msg st; t_cnt := t_cnt st; delayed := delayed st; md := md st; frames := frames st; todo := todo st; iter := iter st; spin := spin st; spinK := spinK st; ctrl := ctrl st; trace := v; g_ext := g_ext st; g_leak := g_leak st; g_floor := g_floor st; g_abort := g_abort st |}.
+  {| time := time st; ready := ready st; heap := heap st; nexth := nexth st; futs := futs st; scopes := scopes st; sstack := sstack st; t_waiter := t_waiter st; t_must := t_must st; t_msg := t_msg st; t_cnt := t_cnt st; delayed := delayed st; md := md st; frames := frames st; todo := todo st; iter := iter st; spin := spin st; spinK := spinK st; ctrl := ctrl st; trace := v; g_ext := g_ext st; g_leak := g_leak st; g_floor := g_floor st; g_abort := g_abort st; fixF := fixF st |}.
 Definition set_g_ext (st : state) (v : nat) : state :=
-  {| time := time st; ready := ready st; heap := heap st; nexth := nexth st; futs := futs st; scopes := scopes st; sstack := sstack st; t_waiter := t_waiter st; t_must := t_must st; t_msg := t_msg st; t_cnt := t_cnt st; delayed := delayed st; md := md st; frames := frames st; todo := todo st; iter := iter st; spin := spin st; spinK := spinK st; ctrl := ctrl st; trace := trace st; g_ext := v; g_leak := g_leak st; g_floor := g_floor st; g_abort := g_abort st |}.
+  {| time := time st; ready := ready st; heap := heap st; nexth := nexth st; futs := futs st; scopes := scopes st; sstack := sstack st; t_waiter := t_waiter st; t_must := t_must st; t_msg := t_msg st; t_cnt := t_cnt st; delayed := delayed st; md := md st; frames := frames st; todo := todo st; iter := iter st; spin := spin st; spinK := spinK st; ctrl := ctrl st; trace := trace st; g_ext := v; g_leak := g_leak st; g_floor := g_floor st; g_abort := g_abort st; fixF := fixF st |}.
 Definition set_g_leak (st : state) (v : nat) : state :=
-  {| time := time st; ready := ready st; heap := heap st; nexth := nexth st; futs := futs st; scopes := scopes st; sstack := sstack st; t_waiter := t_waiter st; t_must := t_must st; t_msg := t_msg st; t_cnt := t_cnt st; delayed := delayed st; md := md st; frames := frames st; todo := todo st; iter := iter st; spin := spin st; spinK := spinK st; ctrl := ctrl st; trace := trace st; g_ext := g_ext st; g_leak := v; g_floor := g_floor st; g_abort := g_abort st |}.
+  {| time := time st; ready := ready st; heap := heap st; nexth := nexth st; futs := futs st; scopes := scopes st; sstack := sstack st; t_waiter := t_waiter st; t_must := t_must st; t_msg := t_msg st; t_cnt := t_cnt st; delayed := delayed st; md := md st; frames := frames st; todo := todo st; iter := iter st; spin := spin st; spinK := spinK st; ctrl := ctrl st; trace := trace st; g_ext := g_ext st; g_leak := v; g_floor := g_floor st; g_abort := g_abort st; fixF := fixF st |}.
 Definition set_g_floor (st : state) (v : nat) : state :=
-  {| time := time st; ready := ready st; heap := heap st; nexth := nexth st; futs := futs st; scopes := scopes st; sstack := sstack st; t_waiter := t_waiter st; t_must := t_must st; t_msg := t_msg st; t_cnt := t_cnt st; delayed := delayed st; md := md st; frames := frames st; todo := todo st; iter := iter st; spin := spin st; spinK := spinK st; ctrl := ctrl st; trace := trace st; g_ext := g_ext st; g_leak := g_leak st; g_floor := v; g_abort := g_abort st |}.
+  {| time := time st; ready := ready st; heap := heap st; nexth := nexth st; futs := futs st; scopes := scopes st; sstack := sstack st; t_waiter := t_waiter st; t_must := t_must st; t_msg := t_msg st; t_cnt := t_cnt st; delayed := delayed st; md := md st; frames := frames st; todo := todo st; iter := iter st; spin := spin st; spinK := spinK st; ctrl := ctrl st; trace := trace st; g_ext := g_ext st; g_leak := g_leak st; g_floor := v; g_abort := g_abort st; fixF := fixF st |}.
 Definition set_g_abort (st : state) (v : bool) : state :=
-  {| time := time st; ready := ready st; heap := heap st; nexth := nexth st; futs := futs st; scopes := scopes st; sstack := sstack st; t_waiter := t_waiter st; t_must := t_must st; t_msg := t_msg st; t_cnt := t_cnt st; delayed := delayed st; md := md st; frames := frames st; todo := todo st; iter := iter st; spin := spin st; spinK := spinK st; ctrl := ctrl st; trace := trace st; g_ext := g_ext st; g_leak := g_leak st; g_floor := g_floor st; g_abort := v |}.
+  {| time := time st; ready := ready st; heap := heap st; nexth := nexth st; futs := futs st; scopes := scopes st; sstack := sstack st; t_waiter := t_waiter st; t_must := t_must st; t_msg := t_msg st; t_cnt := t_cnt st; delayed := delayed st; md := md st; frames := frames st; todo := todo st; iter := iter st; spin := spin st; spinK := spinK st; ctrl := ctrl st; trace := trace st; g_ext := g_ext st; g_leak := g_leak st; g_floor := g_floor st; g_abort := v; fixF := fixF st |}.
+Definition set_fixF (st : state) (v : bool) : state :=
+  {| time := time st; ready := ready st; heap := heap st; nexth := nexth st; futs := futs st; scopes := scopes st; sstack := sstack st; t_waiter := t_waiter st; t_must := t_must st; t_msg := t_msg st; t_cnt := t_cnt st; delayed := delayed st; md := md st; frames := frames st; todo := todo st; iter := iter st; spin := spin st; spinK := spinK st; ctrl := ctrl st; trace := trace st; g_ext := g_ext st; g_leak := g_leak st; g_floor := g_floor st; g_abort := g_abort st; fixF := v |}.
 
 (* ================= generic helpers ================= *)
 Fixpoint upd {A} (l : list A) (i : nat) (x : A) : list A :=
@@ -417,6 +420,14 @@ Definition exit_drop_delayed (st : state) (k : nat) : state :=
   | None => st
   end.
 
+(* Proposed repair of finding C13-F1 (meta/fixes/C13_uncancel_leftover.diff), present in the code iff fixF:
+     while self.__host_task_cancel_calls: self.__host_task_cancel_calls -= 1; host_task.uncancel()
+   inside `if self.__cancel_called:` after the cancelled_caught computation.  Returns the calls still not taken back. *)
+Definition exit_takeback (st : state) (called : bool) (calls : nat) : state * nat :=
+  if fixF st && called then
+    (set_g_floor (set_t_cnt st (t_cnt st - calls)) (g_floor st + (calls - t_cnt st)), 0)
+  else (st, calls).
+
 (* CancelScope.__exit__(exc); returns the state and the return value (cancelled_caught).
    `if self.__state is not ENTERED: raise RuntimeError` -- __host_task is set exactly while the state is ENTERED; the
    branch is unreachable for the programs of this language (flagged by g_abort). *)
@@ -427,8 +438,8 @@ Definition scope_exit (st : state) (k : nat) (exc : option exn) : state * bool :
   let st := set_sstack st (tl (sstack st)) in
   let r := if s_called s then exit_called st k s exc else (st, s_calls s, s_caught s) in
   let st := if s_called s then exit_drop_delayed (fst (fst r)) k else fst (fst r) in
-  let calls := snd (fst r) in
   let caught := snd r in
+  let '(st, calls) := exit_takeback st (s_called s) (snd (fst r)) in
   let st := put_scope st k (mkScope false (s_hostc s) calls SExited (s_called s) caught (s_deadline s) None None) in
   let st := set_g_leak st (g_leak st + calls) in
   (check_pending st, caught).
@@ -798,9 +809,9 @@ Fixpoint push_timers (ts : list nat) (st : state) : state :=
   end.
 
 (* loop.create_task(program()); controller timers call_at(t, task.cancel) registered right after, in order *)
-Definition init (p : prog) (timers : list nat) (turns : list (nat * bool)) (k : nat) : state :=
+Definition init (fx : bool) (p : prog) (timers : list nat) (turns : list (nat * bool)) (k : nat) : state :=
   let st := mkState 0 [mkH 0 HStep false] [] 1 [] [] [] None false None 0 None MLoop [FStart p] 0 0 0 k turns []
-                    0 0 0 false in
+                    0 0 0 false fx in
   push_timers timers st.
 
 (* ================= observation functions used in the statements of the theorems ================= *)
